@@ -1,5 +1,7 @@
 """C07 / C08: tulz::ThreadPool (+ tulz::Thread) under the controlled scheduler, lock-step against the Lean model
-(Tulz/Model/Pool.lean, namespace TPool), with direct trace monitors for every clause of the two properties."""
+(Tulz/Model/Pool.lean, namespace TPool), with direct trace monitors for every clause of the two properties.
+Second part of every run (components/poolx.py): the same pool WITH expiring workers and update() under a virtual clock
+(harness/pool/poolx_harness.cpp), lock-step against Tulz/Model/PoolX.lean (namespace TPoolX, theorems C07X_* / C08X_*)."""
 import json
 import os
 import threading
